@@ -422,6 +422,16 @@ func runConc(c *Case) lib.Result {
 	var panics atomic.Int32
 	var wg sync.WaitGroup
 	root := lib.NewRng(c.Seed)
+	// no reader can ever receive more items than all sources together hold (a copy repeats
+	// them once per child, never more): a reader that goes beyond is cut off and reported
+	limit := 64
+	for _, wr := range c.Writers {
+		limit += len(wr.Items)
+	}
+	for _, o := range c.Ops {
+		limit += len(o.Xs)
+	}
+	var runaway atomic.Int32
 	for i, l := range c.Leaves {
 		wg.Add(1)
 		r := root.Fork(uint64(1000 + i))
@@ -444,6 +454,10 @@ func runConc(c *Case) lib.Result {
 					break
 				}
 				h.Got = append(h.Got, *o.X)
+				if len(h.Got) > limit {
+					runaway.Add(1)
+					break
+				}
 			}
 			yield(r)
 			w.hs[l.H].Close()
@@ -518,6 +532,9 @@ func runConc(c *Case) lib.Result {
 	out.Writers, out.Leaves = wh, lh
 	if n := panics.Load(); n > 0 {
 		fail("panic", fmt.Sprintf("%d goroutine(s) panicked inside a stream call", n))
+	}
+	if n := runaway.Load(); n > 0 {
+		fail("runaway", fmt.Sprintf("%d reader(s) received more items than all sources together hold (cut off after %d)", n, limit))
 	}
 	// goroutines started by the implementation must be gone once every end is closed
 	deadline := time.Now().Add(500 * time.Millisecond)
